@@ -175,13 +175,21 @@ func c21(c *vc.Ctx) {
 		ReplPat:     vc.Pick(c, 1, 2),
 		CasePat:     vc.Pick(c, 1, 2),
 		DefaultArgs: vc.Pick(c, []string{"d", "", "a b", `"a b"`}, []string{"d", "", "a b", `"a b"`, `'a b'`, "$y", `"$y z"`, "*"}),
+		// round 3: the argument words of the operators as a dimension
+		WordDefaultOps: vc.Pick(c, []string{":-", "=", ":+"}, []string{":-", "-", ":=", "=", ":+", "+"}),
+		WordReplOps:    vc.Pick(c, []string{"/", "//"}, []string{"/", "//", "/#", "/%"}),
+		WordReplPats:   vc.Pick(c, []string{"a", "*"}, c21Patterns(1, false)),
+		WordPatOps:     vc.Pick(c, []string{"#", "%%", "/"}, []string{"#", "##", "%", "%%", "/", "//", "/#", "/%", "^", "^^", ",", ",,"}),
+		WordBoth:       vc.Pick(c, false, true),
+		SliceFar:       vc.Pick(c, []int{-4, -3, 4}, []int{-6, -5, -4, -3, 4, 5, 6}),
 	}
 	var stateIDs []string
 	for _, st := range c21States {
 		stateIDs = append(stateIDs, st.ID+" ["+st.Setup+"]")
 	}
-	c.Rule = fmt.Sprintf("states %q (plus the fixed variables: %s) x targets (primary: x | a[@] a[*] | A[@] | @ *; secondary: x[0] x[@] x[*] x[1] | a[1] a a[-1] a[9] | A[*] A[k] A[z] A | 1 2; indirection ${!n..} through y yu ye yn | ya yat y0 | yA yAt | yp yq 1 #; listings ${!a[@]} ${!a[*]} ${!p*} ${!p@}) x operators (primary targets: none, ${#p}, {:- - := = :+ +} x args %q, :? ? with and without message, :o and :o:l for o,l in -2..3, {# ## %% %%%%} x patterns of <=%d symbols, {/ // /# /%%} x patterns of 1..%d symbols x replacement {\"\", Z, &} and without the second slash, {^ ^^ , ,,} x patterns of <=%d symbols, @Q @U @L @u @a @E @P; pattern symbols %q; secondary targets and indirection: %d representative operators) x {unquoted, double-quoted}; assignment forms also followed by a read-back of the variable. noglob on, IFS default. For each: count and text of the fields (or failure of the expansion) in a fresh interp.Runner = bash 5.2 (eval in one process; :? and ? forms in a command substitution), and for the forms expand.Fields can evaluate without a Runner also expand.Fields over an Environ holding the same state. ${..@Q} compared after unquoting bash fields 'S' where S needs no quoting. distinct = distinct (fields) outcomes",
-		stateIDs, c21Reset, b.DefaultArgs, b.RemPat, b.ReplPat, b.CasePat, c21PatAlphabet, len(c21BasicOps()))
+	c.Rule = fmt.Sprintf("states %q (plus the fixed variables: %s) x targets (primary: x | a[@] a[*] | A[@] | @ *; secondary: x[0] x[@] x[*] x[1] | a[1] a a[-1] a[9] | A[*] A[k] A[z] A | 1 2; indirection ${!n..} through y yu ye yn | ya yat y0 | yA yAt | yp yq 1 #; listings ${!a[@]} ${!a[*]} ${!p*} ${!p@}) x operators (primary targets: none, ${#p}, {:- - := = :+ +} x args %q, :? ? with and without message, :o and :o:l for o,l in -2..3, {# ## %% %%%%} x patterns of <=%d symbols, {/ // /# /%%} x patterns of 1..%d symbols x replacement {\"\", Z, &} and without the second slash, {^ ^^ , ,,} x patterns of <=%d symbols, @Q @U @L @u @a @E @P; pattern symbols %q; argument words W=%q (w='?': one expansion, expansion and literal in both orders, two expansions, quoted escape, quoted expansion with a blank, empty quotes): %q x W as the default word, %q x patterns %q x W as the replacement, %q x W as the pattern (replace forms with replacement Z)%s; offsets beyond the values %v alone and with lengths -1 0 1 3; secondary targets and indirection: %d representative operators) x {unquoted, double-quoted}; assignment forms also followed by a read-back of the variable. noglob on, IFS default. For each: count and text of the fields (or failure of the expansion) in a fresh interp.Runner = bash 5.2 (eval in one process; :? and ? forms in a command substitution), and for the forms expand.Fields can evaluate without a Runner also expand.Fields over an Environ holding the same state. ${..@Q} compared after unquoting bash fields 'S' where S needs no quoting. distinct = distinct (fields) outcomes",
+		stateIDs, c21Reset, b.DefaultArgs, b.RemPat, b.ReplPat, b.CasePat, c21PatAlphabet,
+		c21ArgWordSrcs(), b.WordDefaultOps, b.WordReplOps, b.WordReplPats, b.WordPatOps, vc.Pick(c, "", ", / and // x W as the pattern x W as the replacement"), b.SliceFar, len(c21BasicOps()))
 	c.Assumptions = []string{
 		"bash 5.2.15 (LC_ALL=C.utf8) is the oracle",
 		"functions, printf, set --, declare -A, array assignment and \"$@\" of the interpreter are trusted to set up the state and render the fields",
